@@ -20,10 +20,8 @@ func checkC16(c *Ctx) {
 	c.Level = "other"
 	c.Explain = "C16 decided by (a) abstract interpretation of ConvertToSMF1 on a format-0 file with a representative event shape (meta, channel a, channel b, channel a again, sysex, end-of-track) whose delta times, data bytes and resolution are symbolic: the result must have format 1, the same time division, the meta track first, every event on the track of its channel with delta = difference of absolute ticks (affine forms over the symbolic deltas), original relative order, every track terminated; and (b) structural rules that make this hold for any number of events: exactly one append per event, the per-event record is allocated inside the loop (buckets do not alias), channel buckets are never sorted, the meta bucket is sorted by a key in which it is already non-decreasing (running sum of unsigned deltas)."
 	c.Trusted = []string{"go/ssa", "E-abs incl. reflect.DeepEqual summary on byte slices", "sort.Sort leaves an already sorted input unchanged (pinned toolchain, DESIGN §7)"}
-	c.Rule("C16.1", "each event goes to exactly one bucket: one append per loop iteration on every path, channel bucket iff the channel test succeeds", 2)
 	c.Rule("C16.2", "conversion of a representative symbolic file: format 1, time division kept, meta track first, events on their channel's track with absolute ticks and order preserved, all tracks terminated", 1)
-	c.Rule("C16.3", "fresh record per event: the record whose address is stored in a bucket is allocated inside the loop body", 1)
-	c.Rule("C16.6", "no reordering: channel buckets are not sorted; the meta bucket is sorted by a key (absolute tick = running sum of unsigned deltas) in which it is already non-decreasing", 2)
+	c.Rule("C16.6", "no unspecified reordering: sorts are interpreted with the code's own comparison — stable, or on input already in order, or without possibly-equal neighbours (until round 5: syntactic rules on the distribution loop and on which sort is called on which bucket — C16.1, C16.3, C16.6 — now all decided by the conversion simulation C16.2/C16.6)", 1)
 
 	c.Rule("C16.7", "Track.Add / Close store the delta they are given (no clamping or narrowing: the conversion re-deltas from absolute ticks, so a gap on a target track can exceed any single source delta) (= C01.7)", 5)
 	c.include(checkC01, map[string]string{"C01.7": "C16.7"})
@@ -39,357 +37,194 @@ func checkC16(c *Ctx) {
 		return
 	}
 	c.Fn(FuncName(conv))
-	// ---------------- structural
-	loops := naturalLoops(conv)
-	var first *loopInfo
-	var chanCall ssa.CallInstruction
-	for _, call := range calls(conv) {
-		if f := call.Common().StaticCallee(); f != nil && f.Name() == "GetChannel" {
-			chanCall = call
-		}
-	}
-	for _, l := range loops {
-		if chanCall != nil && l.Body[chanCall.Block()] {
-			first = l
-		}
-	}
-	if first == nil || chanCall == nil {
-		c.Unk("C16.1", "distribution loop", p.Pos(conv.Pos()), "no loop with a channel test found")
-	} else {
-		var appends []ssa.Instruction
-		for b := range first.Body {
-			for _, in := range b.Instrs {
-				if call, ok := in.(*ssa.Call); ok {
-					if bi, ok := call.Call.Value.(*ssa.Builtin); ok && bi.Name() == "append" {
-						appends = append(appends, call)
-					}
-				}
-			}
-		}
-		avoid := map[ssa.Instruction]bool{}
-		for _, a := range appends {
-			avoid[a] = true
-		}
-		// every cycle passes an append; no path with two appends
-		okOnce := len(appends) >= 2
-		why := fmt.Sprintf("%d appends in the distribution loop (need one per bucket kind)", len(appends))
-		if okOnce {
-			seen := map[*ssa.BasicBlock]bool{}
-			var walk func(b *ssa.BasicBlock, firstVisit bool) bool
-			walk = func(b *ssa.BasicBlock, firstVisit bool) bool {
-				if b == first.Head && !firstVisit {
-					return true
-				}
-				if !first.Body[b] || (seen[b] && !firstVisit) {
-					return false
-				}
-				seen[b] = true
-				for _, in := range b.Instrs {
-					if avoid[in] {
-						return false
-					}
-				}
-				for _, s := range b.Succs {
-					if first.Body[s] && walk(s, false) {
-						return true
-					}
-				}
-				return false
-			}
-			// start from the body entry
-			for _, s := range first.Head.Succs {
-				if first.Body[s] && s != first.Head && walk(s, true) {
-					okOnce = false
-					why = "an iteration can complete without appending the event to any bucket (event lost)"
-				}
-			}
-			for _, a := range appends {
-				for _, b2 := range appends {
-					if a != b2 && canReachAvoiding(a, b2, map[ssa.Instruction]bool{first.Head.Instrs[len(first.Head.Instrs)-1]: true}) && !passesHead(a, b2, first) {
-						okOnce = false
-						why = "one event can be appended to two buckets (duplicated)"
-					}
-				}
-			}
-		}
-		c.Check(okOnce, "C16.1", "exactly one bucket per event", p.Pos(chanCall.Pos()), "every path through the loop body executes exactly one append", why)
-		// channel bucket iff channel test true
-		okSide := false
-		for _, u := range liveRefs(chanCall.Value()) {
-			if iff, ok := u.(*ssa.If); ok {
-				te, fe := ifEdges(iff)
-				var tApp, fApp int
-				for _, a := range appends {
-					if edgeDominates(conv, te, a.Block()) || te.to == a.Block() {
-						tApp++
-						// indexed bucket: the appended-to slice is loaded from an IndexAddr
-					}
-					if edgeDominates(conv, fe, a.Block()) || fe.to == a.Block() {
-						fApp++
-					}
-				}
-				okSide = tApp == 1 && fApp == 1
-			}
-		}
-		// bucket index = the channel the test reported, unmasked
-		okIdx := false
-		if len(chanCall.Common().Args) >= 2 {
-			cell := chanCall.Common().Args[len(chanCall.Common().Args)-1]
-			for b := range first.Body {
-				for _, in := range b.Instrs {
-					ia, ok := in.(*ssa.IndexAddr)
-					if !ok {
-						continue
-					}
-					if pt, ok := ia.X.Type().Underlying().(*types.Pointer); !ok {
-						continue
-					} else if at, ok := pt.Elem().Underlying().(*types.Array); !ok || at.Len() != 16 {
-						continue
-					}
-					idx := ia.Index
-					if cv, ok := idx.(*ssa.Convert); ok {
-						idx = cv.X
-					}
-					if l, ok := idx.(*ssa.UnOp); ok && l.X == cell {
-						okIdx = true
-					} else {
-						okIdx = false
-						goto doneIdx
-					}
-				}
-			}
-		}
-	doneIdx:
-		c.Check(okIdx, "C16.1", "bucket index is the reported channel", p.Pos(chanCall.Pos()), "the 16-element bucket array is indexed by the channel written by the channel test, unmodified", "the channel bucket is not indexed by the plain channel of the message")
-		c.Check(okSide, "C16.1", "channel bucket iff channel message", p.Pos(chanCall.Pos()), "one append on the channel edge, one on the other edge", "appends are not split by the channel test")
-		// C16.3 fresh record: appended pointer values are Allocs inside the loop
-		okFresh := len(appends) > 0
-		for _, a := range appends {
-			call := a.(*ssa.Call)
-			// append(bucket, []*T{&te}...): find Alloc reachable as stored element
-			found := false
-			if sl, ok := call.Call.Args[1].(*ssa.Slice); ok {
-				if arr, ok := sl.X.(*ssa.Alloc); ok {
-					for _, u := range liveRefs(arr) {
-						if ia, ok := u.(*ssa.IndexAddr); ok {
-							for _, uu := range liveRefs(ia) {
-								if st, ok := uu.(*ssa.Store); ok {
-									if al, ok := st.Val.(*ssa.Alloc); ok && first.Body[al.Block()] && al.Heap {
-										found = true
-									}
-								}
-							}
-						}
-					}
-				}
-			}
-			if !found {
-				okFresh = false
-			}
-		}
-		c.Check(okFresh, "C16.3", "record allocated per iteration", p.Pos(chanCall.Pos()), "the address stored in a bucket is of a heap record allocated in the loop body", "the buckets share one record (all entries alias the last event)")
-	}
-	// C16.6 sorting
-	scs := sortCalls(conv)
-	okSortTarget := true
-	for _, sc := range scs {
-		field, T := lessField(p, sc.Common().Args[0])
-		q := calleeQual(sc)
-		_ = T
-		// sorted value must not be an element of the channel bucket array
-		mi, _ := sc.Common().Args[0].(*ssa.MakeInterface)
-		if mi != nil {
-			if l, ok := mi.X.(*ssa.UnOp); ok {
-				if _, isIdx := l.X.(*ssa.IndexAddr); isIdx {
-					okSortTarget = false
-				}
-			}
-		}
-		if q == "sort.Stable" || q == "sort.SliceStable" {
-			c.OK("C16.6", "meta bucket sort", p.Pos(sc.Pos()), "stable sort")
-			continue
-		}
-		// premise: key field = AbsTicks, assigned from a running sum of unsigned deltas in the distribution loop
-		prem := field == "AbsTicks" && runningUnsignedSum(conv)
-		c.Check(prem, "C16.6", "meta bucket sort", p.Pos(sc.Pos()), "unstable sort, but the key (absolute tick) is a running sum of unsigned deltas filled in one pass: the input is already non-decreasing", "unstable sort on a key that is not shown to be non-decreasing in the input: meta/sysex events sharing a tick may be reordered")
-	}
-	c.Check(okSortTarget, "C16.6", "channel buckets are not sorted", p.Pos(conv.Pos()), "no sort call on an indexed (per-channel) bucket", "a per-channel bucket is sorted: original order within a channel may change")
-
-	// ---------------- E-abs on a representative file
-	ex := NewExec(p)
-	ex.CallHook = func(ex *Exec, st *State, fr *Frame, call ssa.CallInstruction, callee *ssa.Function, args []Val) ([]callRes, bool) {
-		if callee.String() == "sort.Sort" || callee.String() == "sort.Stable" {
-			return []callRes{{st: st, ret: nil}}, true // permutation; order premise checked by C16.6
-		}
-		return nil, false
-	}
-	st := ex.NewState()
-	d := func(i int) *IntV {
-		s := ex.syms.Get(fmt.Sprintf("d%d", i), 32, false)
-		st.refineSym(s, 0, 1<<20)
-		return mkSym(s)
-	}
-	data := func(n string) *IntV {
-		s := ex.syms.Get(n, 8, false)
-		st.refineSym(s, 0, 127)
-		return mkSym(s)
-	}
-	k8 := func(v int64) Val { return mkConst(v, 8, false) }
-	evs := []c16ev{
-		{d(0), []Val{k8(0xFF), k8(0x06), k8(0x00)}}, // a meta event without payload (same length as end-of-track) must not end the track
-		{d(1), []Val{k8(0x99), data("k1"), data("v1")}},
-		{d(2), []Val{k8(0x9F), data("k2"), data("v2")}},
-		{d(3), []Val{k8(0xB9), data("cc"), data("cv")}},
-		{d(4), []Val{k8(0xF0), data("sx"), k8(0xF7)}},
-		{d(5), []Val{k8(0xFF), k8(0x2F), k8(0x00)}},
-	}
+	// ---------------- E-abs on representative files (symbolic deltas >= 0 and data bytes; concrete status bytes)
+	// Expected result, computed here from the statement: format 1, division kept; first track = every event that is not a
+	// channel message, in source order; then one track per channel that occurs, ascending, with that channel's messages in
+	// source order; every delta = difference of absolute ticks to the previous event on the same target track; every
+	// track terminated by exactly one end-of-track (the source's own on the first track, if it has one).
 	evT := p.namedType("smf", "Event")
 	trackT := p.namedType("smf", "Track")
-	var evVals []Val
-	for _, e := range evs {
-		ev := ex.zeroOf(evT).(*StructV)
-		ev.Fields[fieldIndex(ev.T, "Delta")] = e.delta
-		ev.Fields[fieldIndex(ev.T, "Message")] = ex.mkBytes(st, "m", e.msg, false, 0)
-		evVals = append(evVals, ev)
+	type srcEv struct {
+		status []int64 // concrete leading bytes
+		nData  int     // symbolic data bytes after them
+		tail   []int64 // concrete trailing bytes
+		target int     // -1: first track, 0..15: channel
 	}
-	tid := ex.newObj(st, &ArrayV{Elem: evT, Segs: []Seg{{Elems: evVals}}}, nil)
-	n6 := mkConst(int64(len(evs)), 64, true)
-	track := &SliceV{Obj: tid, Off: mkConst(0, 64, true), Len: n6, Cap: n6}
-	tsid := ex.newObj(st, &ArrayV{Elem: trackT, Segs: []Seg{{Elems: []Val{track}}}}, nil)
-	one := mkConst(1, 64, true)
-	src := ex.zeroOf(smfT).(*StructV)
-	q := mkSym(ex.syms.Get("resolution", 16, false))
-	tf := &IfaceV{Dyn: p.namedType("smf", "MetricTicks"), V: q}
-	src.Fields[fieldIndex(src.T, "TimeFormat")] = tf
-	src.Fields[fieldIndex(src.T, "Tracks")] = &SliceV{Obj: tsid, Off: mkConst(0, 64, true), Len: one, Cap: one}
-	src.Fields[fieldIndex(src.T, "format")] = mkConst(0, 16, false)
-	outs := ex.Call(st, conv, []Val{src}, nil)
-	ok := len(outs) > 0 && !ex.Budget
-	why := ""
-	if ex.Budget {
-		why = "budget exceeded"
+	ch := func(st int64) srcEv { return srcEv{status: []int64{st}, nData: 2, target: int(st & 0x0F)} }
+	meta := func(bs ...int64) srcEv { return srcEv{status: bs, target: -1} }
+	eot := meta(0xFF, 0x2F, 0x00)
+	files := []struct {
+		name string
+		evs  []srcEv
+	}{
+		{"meta without payload, channels 9/15/0/1, channel prefix, sysex, closed source", []srcEv{
+			meta(0xFF, 0x06, 0x00), // same length as end-of-track: must not end the track
+			ch(0x99), ch(0x9F), ch(0xB9),
+			meta(0xFF, 0x20, 0x01, 0x09), // MIDI channel prefix for channel 9: a meta event, stays on the first track
+			meta(0xFF, 0x01, 0x00),
+			ch(0x80), ch(0xE1),
+			{status: []int64{0xF0}, nData: 1, tail: []int64{0xF7}, target: -1},
+			eot,
+		}},
+		{"source track left open (no end-of-track)", []srcEv{meta(0xFF, 0x03, 0x00), ch(0x92), ch(0x82)}},
+		{"no channel messages", []srcEv{meta(0xFF, 0x01, 0x00), eot}},
 	}
-	for _, o := range outs {
-		if o.Panic || len(problemEvents(o.St.Events)) > 0 {
-			ok = false
-			why = "panic/bounds: " + o.Msg + fmtEvents(problemEvents(o.St.Events))
-			continue
-		}
-		dest, _ := o.Ret[0].(*StructV)
-		if dest == nil {
-			ok = false
-			why = "no result"
-			continue
-		}
-		if f, _ := dest.Fields[fieldIndex(dest.T, "format")].(*IntV); f == nil || !o.St.sameInt(f, mkConst(1, 16, false)) {
-			ok = false
-			why = "result format is not 1"
-		}
-		if !sameTimeFormat(o.St, dest.Fields[fieldIndex(dest.T, "TimeFormat")], tf) {
-			ok = false
-			why = "time division not kept"
-		}
-		tracks, _ := dest.Fields[fieldIndex(dest.T, "Tracks")].(*SliceV)
-		tvals, okT := ex.sliceElems(o.St, tracks)
-		// expected tracks: absolute ticks
-		abs := make([]*IntV, len(evs))
-		sum := mkConst(0, 64, true)
-		for i, e := range evs {
-			sum = o.St.Arith(token.ADD, sum, o.St.Convert(e.delta, 64, true), "")
-			abs[i] = sum
-		}
-		type xe struct {
-			idx  int
-			prev int // index of previous event on the same track or -1
-		}
-		want := [][]xe{{{0, -1}, {4, 0}, {5, 4}}, {{1, -1}, {3, 1}}, {{2, -1}}}
-		if !okT || len(tvals) != 3 {
-			ok = false
-			why = fmt.Sprintf("result has %d tracks, expected 3 (meta, channel 9, channel 15) [%s]", len(tvals), outcomeWitness(o))
-			continue
-		}
-		for ti, wt := range want {
-			tsl, _ := tvals[ti].(*SliceV)
-			tev, okE := ex.sliceElems(o.St, tsl)
-			expectN := len(wt)
-			if ti > 0 {
-				expectN++ // appended end-of-track
+	okAll, whyAll := true, ""
+	okSort, whySort := true, ""
+	nOuts := 0
+	for _, file := range files {
+		ex := NewExec(p)
+		// sorting is interpreted with the code's own comparison (abs_sort.go): a stable sort gives the stable permutation;
+		// an unstable one is the identity on input that is already in order and otherwise leaves the order of
+		// possibly-equal neighbours unspecified (reported under C16.6)
+		ex.SortModel = true
+		st := ex.NewState()
+		k8 := func(v int64) Val { return mkConst(v, 8, false) }
+		var evs []c16ev
+		var evVals []Val
+		for i, se := range file.evs {
+			ds := ex.syms.Get(fmt.Sprintf("d%d", i), 32, false)
+			st.refineSym(ds, 0, 1<<20)
+			var msg []Val
+			for _, b := range se.status {
+				msg = append(msg, k8(b))
 			}
-			if !okE || len(tev) != expectN {
-				ok = false
-				why = fmt.Sprintf("track %d has %d events, expected %d", ti, len(tev), expectN)
+			for j := 0; j < se.nData; j++ {
+				sy := ex.syms.Get(fmt.Sprintf("x%d_%d", i, j), 8, false)
+				st.refineSym(sy, 0, 127)
+				msg = append(msg, mkSym(sy))
+			}
+			for _, b := range se.tail {
+				msg = append(msg, k8(b))
+			}
+			evs = append(evs, c16ev{mkSym(ds), msg})
+			ev := ex.zeroOf(evT).(*StructV)
+			ev.Fields[fieldIndex(ev.T, "Delta")] = mkSym(ds)
+			ev.Fields[fieldIndex(ev.T, "Message")] = ex.mkBytes(st, "m", msg, false, 0)
+			evVals = append(evVals, ev)
+		}
+		tid := ex.newObj(st, &ArrayV{Elem: evT, Segs: []Seg{{Elems: evVals}}}, nil)
+		nEv := mkConst(int64(len(evs)), 64, true)
+		track := &SliceV{Obj: tid, Off: mkConst(0, 64, true), Len: nEv, Cap: nEv}
+		tsid := ex.newObj(st, &ArrayV{Elem: trackT, Segs: []Seg{{Elems: []Val{track}}}}, nil)
+		one := mkConst(1, 64, true)
+		src := ex.zeroOf(smfT).(*StructV)
+		q := mkSym(ex.syms.Get("resolution", 16, false))
+		tf := &IfaceV{Dyn: p.namedType("smf", "MetricTicks"), V: q}
+		src.Fields[fieldIndex(src.T, "TimeFormat")] = tf
+		src.Fields[fieldIndex(src.T, "Tracks")] = &SliceV{Obj: tsid, Off: mkConst(0, 64, true), Len: one, Cap: one}
+		src.Fields[fieldIndex(src.T, "format")] = mkConst(0, 16, false)
+		// expected tracks: indices into evs; -1 = an appended end-of-track with delta 0
+		var want [][]int
+		var first []int
+		for i, se := range file.evs {
+			if se.target < 0 {
+				first = append(first, i)
+			}
+		}
+		last := file.evs[len(file.evs)-1]
+		if !(last.target < 0 && len(last.status) == 3 && last.status[1] == 0x2F) {
+			first = append(first, -1)
+		}
+		want = append(want, first)
+		for cn := 0; cn < 16; cn++ {
+			var tr []int
+			for i, se := range file.evs {
+				if se.target == cn {
+					tr = append(tr, i)
+				}
+			}
+			if len(tr) > 0 {
+				want = append(want, append(tr, -1))
+			}
+		}
+		outs := ex.Call(st, conv, []Val{src}, nil)
+		nOuts += len(outs)
+		fail := func(format string, a ...interface{}) {
+			okAll, whyAll = false, file.name+": "+fmt.Sprintf(format, a...)
+		}
+		if len(outs) == 0 || ex.Budget {
+			fail("abstract interpretation did not complete")
+			continue
+		}
+		for u := range ex.Unsupported {
+			fail("unmodelled construct: %s", u)
+		}
+		for _, o := range outs {
+			if o.Panic || len(problemEvents(o.St.Events)) > 0 {
+				fail("panic/bounds: %s%s", o.Msg, fmtEvents(problemEvents(o.St.Events)))
 				continue
 			}
-			for j, w := range wt {
-				ev, _ := tev[j].(*StructV)
-				if ev == nil {
-					ok = false
-					why = "event missing"
-					continue
+			for _, e := range o.St.Events {
+				if e.Kind == "sim:unstable-sort-equal-keys" {
+					okSort, whySort = false, e.Msg+" @ "+e.Pos+" — events sharing a tick on one target track (chords, several meta events on one beat) can change their order"
 				}
-				dl, _ := ev.Fields[fieldIndex(ev.T, "Delta")].(*IntV)
-				wantDelta := abs[w.idx]
-				if w.prev >= 0 {
-					wantDelta = o.St.Arith(token.SUB, abs[w.idx], abs[w.prev], "")
-				}
-				if dl == nil || !o.St.sameInt(o.St.Convert(dl, 64, true), wantDelta) {
-					ok = false
-					why = fmt.Sprintf("track %d event %d: delta %s, expected %s (absolute tick not preserved)", ti, j, valString(ev.Fields[fieldIndex(ev.T, "Delta")]), wantDelta)
-				}
-				ms, _ := ev.Fields[fieldIndex(ev.T, "Message")].(*SliceV)
-				me, okM := ex.sliceElems(o.St, ms)
-				if !okM || !segsEqual([]Seg{{Elems: me}}, []Seg{{Elems: evs[w.idx].msg}}, o.St.sameVal) {
-					ok = false
-					why = fmt.Sprintf("track %d event %d: message altered or out of order", ti, j)
-				}
-			}
-			if ti > 0 {
-				last, _ := tev[len(tev)-1].(*StructV)
-				ms, _ := last.Fields[fieldIndex(last.T, "Message")].(*SliceV)
-				me, _ := ex.sliceElems(o.St, ms)
-				if !segsEqual([]Seg{{Elems: me}}, []Seg{{Elems: evs[5].msg}}, o.St.sameVal) {
-					ok = false
-					why = fmt.Sprintf("track %d is not terminated by end-of-track", ti)
-				}
-			}
-		}
-	}
-	// a file without channel messages still becomes format 1 with one terminated track
-	{
-		ex2 := NewExec(p)
-		ex2.CallHook = ex.CallHook
-		st2 := ex2.NewState()
-		d0 := mkSym(ex2.syms.Get("d0", 32, false))
-		st2.refineSym(d0.T.Syms[0], 0, 1<<20)
-		var vals []Val
-		for _, m := range [][]Val{{k8(0xFF), k8(0x01), k8(0x00)}, {k8(0xFF), k8(0x2F), k8(0x00)}} {
-			ev := ex2.zeroOf(evT).(*StructV)
-			ev.Fields[fieldIndex(ev.T, "Delta")] = d0
-			ev.Fields[fieldIndex(ev.T, "Message")] = ex2.mkBytes(st2, "m", m, false, 0)
-			vals = append(vals, ev)
-		}
-		tid2 := ex2.newObj(st2, &ArrayV{Elem: evT, Segs: []Seg{{Elems: vals}}}, nil)
-		n2 := mkConst(2, 64, true)
-		tr2 := &SliceV{Obj: tid2, Off: mkConst(0, 64, true), Len: n2, Cap: n2}
-		tsid2 := ex2.newObj(st2, &ArrayV{Elem: trackT, Segs: []Seg{{Elems: []Val{tr2}}}}, nil)
-		src2 := ex2.zeroOf(smfT).(*StructV)
-		src2.Fields[fieldIndex(src2.T, "TimeFormat")] = tf
-		src2.Fields[fieldIndex(src2.T, "Tracks")] = &SliceV{Obj: tsid2, Off: mkConst(0, 64, true), Len: one, Cap: one}
-		src2.Fields[fieldIndex(src2.T, "format")] = mkConst(0, 16, false)
-		for _, o := range ex2.Call(st2, conv, []Val{src2}, nil) {
-			if o.Panic {
-				ok = false
-				why = o.Msg
-				continue
 			}
 			dest, _ := o.Ret[0].(*StructV)
+			if dest == nil {
+				fail("no result")
+				continue
+			}
 			if f, _ := dest.Fields[fieldIndex(dest.T, "format")].(*IntV); f == nil || !o.St.sameInt(f, mkConst(1, 16, false)) {
-				ok = false
-				why = "a converted file without channel messages does not get format 1"
+				fail("result format is not 1")
+			}
+			if !sameTimeFormat(o.St, dest.Fields[fieldIndex(dest.T, "TimeFormat")], tf) {
+				fail("time division not kept")
+			}
+			tracks, _ := dest.Fields[fieldIndex(dest.T, "Tracks")].(*SliceV)
+			tvals, okT := ex.sliceElems(o.St, tracks)
+			abs := make([]*IntV, len(evs))
+			sum := mkConst(0, 64, true)
+			for i, e := range evs {
+				sum = o.St.Arith(token.ADD, sum, o.St.Convert(e.delta, 64, true), "")
+				abs[i] = sum
+			}
+			if !okT || len(tvals) != len(want) {
+				fail("result has %d tracks, expected %d (the first track plus one per channel that occurs) [%s]", len(tvals), len(want), outcomeWitness(o))
+				continue
+			}
+			for ti, wt := range want {
+				tsl, _ := tvals[ti].(*SliceV)
+				tev, okE := ex.sliceElems(o.St, tsl)
+				if !okE || len(tev) != len(wt) {
+					fail("track %d has %d events, expected %d", ti, len(tev), len(wt))
+					continue
+				}
+				prev := -1
+				for j, wi := range wt {
+					ev, _ := tev[j].(*StructV)
+					if ev == nil {
+						fail("event missing")
+						continue
+					}
+					dl, _ := ev.Fields[fieldIndex(ev.T, "Delta")].(*IntV)
+					ms, _ := ev.Fields[fieldIndex(ev.T, "Message")].(*SliceV)
+					me, okM := ex.sliceElems(o.St, ms)
+					if wi < 0 {
+						if !okM || !segsEqual([]Seg{{Elems: me}}, []Seg{{Elems: []Val{k8(0xFF), k8(0x2F), k8(0x00)}}}, o.St.sameVal) {
+							fail("track %d is not terminated by end-of-track (its last event is something else: a message was overwritten or the track left open)", ti)
+						} else if dl == nil || !o.St.sameInt(o.St.Convert(dl, 64, true), mkConst(0, 64, true)) {
+							fail("track %d: the appended end-of-track has delta %s, expected 0", ti, valString(ev.Fields[fieldIndex(ev.T, "Delta")]))
+						}
+						continue
+					}
+					wantDelta := abs[wi]
+					if prev >= 0 {
+						wantDelta = o.St.Arith(token.SUB, abs[wi], abs[prev], "")
+					}
+					if dl == nil || !o.St.sameInt(o.St.Convert(dl, 64, true), wantDelta) {
+						fail("track %d event %d: delta %s, expected %s (absolute tick not preserved)", ti, j, valString(ev.Fields[fieldIndex(ev.T, "Delta")]), wantDelta)
+					}
+					if !okM || !segsEqual([]Seg{{Elems: me}}, []Seg{{Elems: evs[wi].msg}}, o.St.sameVal) {
+						fail("track %d event %d is not source event %d: a message is on the wrong track, altered, duplicated or out of order", ti, j, wi)
+					}
+					prev = wi
+				}
 			}
 		}
 	}
-	c.Check(ok, "C16.2", "conversion of the representative symbolic file", p.Pos(conv.Pos()), fmt.Sprintf("%d partitions: format 1, division kept, 3 tracks (meta first), deltas are differences of absolute ticks over symbolic deltas, order and bytes preserved, all terminated", len(outs)), why)
+	c.Check(okSort && nOuts > 0, "C16.6", "no unspecified reordering", p.Pos(conv.Pos()), "every sort in the conversion is stable, or runs on input that is already in order, or has no equal keys (interpreted with the code's own comparison on the representative files, whose deltas may be 0)", whySort)
+	c.Check(okAll && nOuts > 0, "C16.2", "conversion of the representative symbolic files", p.Pos(conv.Pos()), fmt.Sprintf("%d files, %d partitions: format 1, division kept, first track = all non-channel events (incl. a channel-prefix meta event and sysex), one track per channel 0/1/9/15 ascending, deltas are differences of absolute ticks over symbolic deltas, order and bytes preserved, every track terminated once — also for a source track left open", len(files), nOuts), whyAll)
 	_ = types.Typ
 }
 
